@@ -30,7 +30,7 @@ _BI_TB = ["the real `copia` binary built from the tree under test, run in a sand
 
 PROPS = {
     "C01": dict(
-        modules=["Copia.Props.C01", "Copia.Props.C01b", "Copia.Props.C01c", "Copia.Props.C05b"], namespaces=["Copia.C01"], runner="rust", needs_cli=True,
+        modules=["Copia.Props.C01", "Copia.Props.C01b", "Copia.Props.C01c", "Copia.Props.C01d", "Copia.Props.C05b"], namespaces=["Copia.C01"], runner="rust", needs_cli=True,
         assumptions=_DELTA_ASSUME, trusted_base=_DELTA_TB,
         level_text="Kernel-checked theorems for ALL basis/source byte strings and ALL positive block sizes: patch(basis, delta(signature(basis), src)) = ok src "
                    "(or H collides on an explicit pair), delta well-formedness (declared size/checksum, lengths sum, copies inside the basis), sync_files for absent/identical/differing destination. "
@@ -179,7 +179,7 @@ PROPS = {
         technique="Lean 4 proof (direct from the model's definition, induction over ops for bounds) + differential correspondence on corrupted inputs",
     ),
     "C16": dict(
-        modules=["Copia.Props.C16", "Copia.Props.C16b", "Copia.Props.C17b"], namespaces=["Copia.C16"], runner="rust", needs_cli=False,
+        modules=["Copia.Props.C16", "Copia.Props.C16b", "Copia.Props.C01d", "Copia.Props.C17b"], namespaces=["Copia.C16"], runner="rust", needs_cli=False,
         assumptions=_DELTA_ASSUME + ["block sizes 0 < bs ≤ 65536 and byte-valued sources (the C17 domain) for the checksum-threading invariant",
                                      "edit_bound needs the basis length to be a multiple of the block size (as the property's `file of distinct blocks`); distinctness of the blocks turned out not to be needed"],
         trusted_base=_DELTA_TB,
